@@ -204,18 +204,21 @@ func (s *server) onAccept(conn Conn) {
 		return nil
 	})
 	s.connections.Store(fd, nconn)
-	if !nconn.IsActive() {
-		// Closed already (by OnPrepare, or by its poller when the peer hung up). It stays tracked until
-		// its close callbacks have run: a handler may still be busy with it. If they ran before the
-		// callback above was added the entry is left over; Close drops entries whose descriptor is closed.
+	// A connection that is closed already stays tracked until its close callbacks have run: a handler
+	// may still be busy with it. If they ran before the callback above was added the entry is left
+	// over; Close drops entries whose descriptor is closed.
+	if nconn.isCloseBy(user) {
+		// closed by OnPrepare (or because its registration failed): torn down already
 		return
 	}
 	// the server may have been shut down while this connection was being accepted:
 	// Shutdown did not see it, so it has to be closed here.
-	if atomic.LoadInt32(&s.closed) != 0 {
+	if atomic.LoadInt32(&s.closed) != 0 && nconn.IsActive() {
 		nconn.Close()
 		return
 	}
+	// (a connection whose peer has hung up meanwhile goes through its callbacks like any other:
+	// OnConnect, OnDisconnect, OnRequest for what it sent, then the close callbacks)
 
 	// trigger onConnect asynchronously
 	nconn.onConnect()
